@@ -9,7 +9,13 @@ open Monero
 `Spec.specTx` / `Spec.specBlock` (Spec/Wire.lean) are flat by-the-book concatenations written from Monero's headers,
 independent of the model and of /repo; `build d` is the Rust-shaped value a description denotes. Because the spec
 does not mention the model or `Gen`, a *symmetric* edit of the library (same tag, count width, field order or matrix
-dimension changed in encoder and decoder) keeps C01/C02 true and breaks these theorems / their correspondence.
+dimension changed in encoder and decoder) keeps C01/C02 true and shows up HERE. How it shows up: `C03_enc_eq_spec` /
+`C03_dec_spec` relate the hand-written model to the hand-written spec — neither is regenerated from /repo, so no edit of /repo can
+make them fail; what fails is (i) the three-way correspondence run (library bytes ≠ model bytes = spec bytes: the model no longer
+describes the code, and the code no longer writes Monero's bytes) and (ii) those theorems below that read a table regenerated from
+the source with NO fallback — tag bytes and `is_rct_bp*` sets (`C03_tags_are_monero`, observed by evaluation), macro field orders
+(`C03_field_orders_are_monero`, `C03_spec_follows_field_orders`). The `match` / `==` STRUCTURE tables (`C03_rct_branching_*`) are weaker
+ties: see their doc comments.
 
 BulletproofPlus proof count: Monero writes a varint, the library one raw byte; they coincide below 128, which is the
 range these theorems cover (`BppSmall`); the deviation beyond is a recorded known finding (DESIGN.md §7 item 4). -/
@@ -20,7 +26,10 @@ def BppSmall (d : Spec.TxD) : Prop :=
   ∀ fee e o bpps cls po, d.body = .v2 (some (.bpplus fee e o bpps cls po)) → bpps.length < 128
 
 /-- serialising the described structure gives exactly the spec bytes — for EVERY description (both versions, any
-input/output/ring counts, all seven RingCT types, arbitrary field contents; no well-shapedness needed) -/
+input/output/ring counts, all seven RingCT types, arbitrary field contents; no well-shapedness needed). "Every" includes Bulletproof
+(type 3) proof lists of 2^32 or more entries, where the equality holds because BOTH sides are totalised the same way: `Spec.u32le`
+writes `n mod 2^32` like the model's `leBytes (n % 2^32) 4`; a by-the-book `u32` has no value there, and the case is unreachable in
+Rust (`len() as u32` of a vector that fits in memory) -/
 theorem C03_enc_eq_spec (d : Spec.TxD) (hb : BppSmall d) : encTx (build d) = Spec.specTx d := by
   obtain ⟨unlock, ins, outs, extra, body⟩ := d
   cases body with
@@ -71,6 +80,8 @@ theorem C03_dec_spec (d : Spec.TxD) (hb : BppSmall d) (hwf : wfTx (build d)) (r 
     tx (Spec.specTx d ++ r) = some (build d, r) := by
   rw [← C03_enc_eq_spec d hb]; exact complete_tx (build d) r hwf
 
+/-- (for a nonce of 2^32 or more the equality holds by the common truncation `mod 2^32` of `Spec.u32le` and the model; the Rust field is a
+`u32`, and `Spec.WFBlockD` — hypothesis of the decode theorems — demands `nonce < 2^32`) -/
 theorem C03_block_enc_eq_spec (b : Spec.BlockD) (hb : BppSmall b.miner) : encBlock (buildBlock b) = Spec.specBlock b := by
   have h4 : encUintLE 4 b.hdr.nonce = Spec.u32le b.hdr.nonce := by
     simp only [encUintLE, leBytes, Spec.u32le, List.range, List.range.loop, List.map_cons, List.map_nil]
@@ -90,16 +101,30 @@ theorem C03_tags_are_monero :
     Gen.subFieldDecode = Spec.tagsExtra ∧ Gen.subFieldEncode = Spec.tagsExtra.map (fun p => (p.2, p.1)) ∧
     Gen.rctTypeDecode = Spec.tagsRct ∧ Gen.rctTypeEncode = Spec.tagsRct.map (fun p => (p.2, p.1)) := by decide
 
-/-- the RingCT-type case distinctions of the CURRENT SOURCE (every `match rct_type` and `rct_type == …` of the base,
-prunable and ecdh codecs, decoder and encoder separately, in source order) are the format's: which types carry
-Bulletproofs(+), a varint proof count, CLSAGs, one MLSAG per input, pseudo outputs in the prunable part, compact ecdh -/
+/-- WHERE the RingCT codecs branch on the type, as the translator reads it off the source (harness/src/extract.rs `RctMatches`): for
+the base, prunable and ecdh codecs, decoder and encoder separately, in source order, the variant set of each arm's PATTERN of every
+`match rct_type`, and every comparison of `rct_type` with a variant (`==`, `!=`, either operand order, `matches!`) WITH its polarity
+(`…Cmps`; `…Eqs` is the older reading without polarity). These select the format's sets of types: which types carry Bulletproofs(+), a
+varint proof count, CLSAGs, one MLSAG per input, pseudo outputs in the prunable part, compact ecdh; every comparison is positive.
+
+What this does NOT say. (1) The arm BODIES are not read: swapping the bodies of `Bulletproof2 | Clsag => varint count` and `_ => u32 count`
+in encoder and decoder leaves every table unchanged. That each arm does what the format prescribes for its types is established by
+the three-way correspondence run only (library bytes vs model bytes vs `Spec/Wire` bytes on descriptions of every type). (2) The tables
+are a syntactic reading; when the current source is STRUCTURED differently from the reviewed one (an arm split, an `if` turned into a
+`match`, a flipped comparison with swapped branches …) the translator keeps the reviewed table and prints an `EXTRACT-NOTE … tie is
+differential` (extract.rs `finalize`: a restructuring is not a change of behaviour and must not raise an alarm). So a source edit does not
+make this theorem fail; it is a consistency statement between the reviewed branching structure — the one the hand-written model
+mirrors (`C01_model_tags_are_source`) — and the format tables of Spec/Wire, and the tie of that structure to the current source is the
+correspondence run. (The model, Model/Tx.lean, hard-codes `ty = 4 ∨ ty = 5` etc.; it does not read `Gen`.) -/
 theorem C03_rct_branching_is_monero :
     Gen.isRctBp = Spec.usesBulletproof ∧ Gen.isRctBpPlus = Spec.usesBulletproofPlus ∧
     Gen.ecdhDecMatches = [[RctTy.all.filter (fun t => t ∉ Spec.compactEcdh ∧ t ≠ .Null) ++ [.Null], Spec.compactEcdh]] ∧
     Gen.baseDecMatches = [[[.Null], RctTy.all.tail]] ∧ Gen.baseEncMatches = Gen.baseDecMatches ∧
     Gen.baseDecEqs = [.Simple] ∧ Gen.baseEncEqs = [.Simple] ∧
     Gen.prunDecMatches = [[[.Null], RctTy.all.tail], [Spec.bpCountIsVarint, []], [Spec.usesClsag, []], [Spec.pseudoOutsInPrunable, []]] ∧
-    Gen.prunEncMatches = Gen.prunDecMatches ∧ Gen.prunDecEqs = Spec.mlsagPerInput := by decide
+    Gen.prunEncMatches = Gen.prunDecMatches ∧ Gen.prunDecEqs = Spec.mlsagPerInput ∧
+    Gen.baseDecCmps = [(true, .Simple)] ∧ Gen.baseEncCmps = [(true, .Simple)] ∧
+    Gen.prunDecCmps = Spec.mlsagPerInput.map (fun t => (true, t)) := by decide
 
 /- non-vacuity: a described coinbase transaction; its spec bytes are what one expects -/
 example : Spec.specTx ⟨0, [.gen 5], [], [], .v2 (some .null)⟩ = [2, 0, 1, 0xff, 5, 0, 0, 0] := by
@@ -149,12 +174,12 @@ theorem C03_deserialize_block_spec (b : Spec.BlockD) (hb : BppSmall b.miner) (h 
   have := C03_block_dec_spec_desc b hb h hc []
   rw [List.append_nil] at this
   simp [strict, this]
-/-- the two remaining regenerated tables of RingCT-type tests (`==` comparisons in `RctSigPrunable::consensus_encode` and in
-`EcdhInfo::consensus_decode`) are EMPTY, as the format has no such case distinction there: together with `C03_rct_branching_is_monero`
-every regenerated `Gen.*` table of Gen/Codec.lean is read by a theorem, so a new `rct_type == X` test anywhere in the three codecs
-breaks the build -/
+/-- the remaining tables of RingCT-type comparisons (`RctSigPrunable::consensus_encode`, `EcdhInfo::consensus_decode`) are EMPTY, with
+and without polarity, as the format has no such case distinction there: together with `C03_rct_branching_is_monero` every `Gen.*` table
+of Gen/Codec.lean is read by a theorem. (Same limits as there: pattern sets and compared variants only, reviewed structure kept on a
+restructured source; a comparison the visitor cannot see — on a renamed binding, inside a helper function — is not in the table.) -/
 theorem C03_rct_branching_complete :
-    Gen.prunEncEqs = [] ∧ Gen.ecdhDecEqs = [] := by decide
+    Gen.prunEncEqs = [] ∧ Gen.ecdhDecEqs = [] ∧ Gen.prunEncCmps = [] ∧ Gen.ecdhDecCmps = [] := by decide
 
 /-! ## The tables of Spec/Wire are the ones the layout follows -/
 
@@ -169,14 +194,16 @@ theorem C03_spec_is_table_driven (r : Spec.RctD) :
       Spec.RctD.fee, Spec.RctD.pseudoOuts, Spec.RctD.ecdhEntries, Spec.RctD.outPk, Spec.RctD.rangeSigs, Spec.RctD.bps,
       Spec.RctD.bpps, Spec.RctD.mgs, Spec.RctD.clsags, Spec.cat]
 
-/-- the remaining two tables are the shapes `Spec.WFRct` demands: entries of the encrypted-amount list are 8 bytes exactly for the
-types in `compactEcdh` (64 otherwise), and there is one two-column MLSAG per input exactly for the types in `mlsagPerInput`
-(Full: a single MLSAG of inputs+1 columns; CLSAG types: none) -/
+/-- the remaining two tables are used by the shapes `Spec.WFRct` demands: entries of the encrypted-amount list are 8 bytes for the types in
+`compactEcdh` and 64 for the others; for the types in `mlsagPerInput` there is one MLSAG per input, each of `m` rows × 2 columns; for
+Full the MLSAG has `m` rows × (inputs + 1) columns; for the types in `usesClsag` there is one CLSAG per input. (Implications from the
+table membership to the shape. That Full has exactly ONE MLSAG and the CLSAG types NONE is not a consequence of `WFRct` but of the
+type `Spec.RctD` itself — `.full` carries a single `MgD`, `.clsag` / `.bpplus` carry no MLSAG field — so it is not stated here.) -/
 theorem C03_spec_shapes_follow_tables (k n m : Nat) (r : Spec.RctD) (h : Spec.WFRct k n m r) :
     (∀ e ∈ r.ecdhEntries, e.length = if Spec.tyOf r ∈ Spec.compactEcdh then 8 else 64) ∧
     (Spec.tyOf r ∈ Spec.mlsagPerInput → r.mgs.length = k ∧ ∀ g ∈ r.mgs, Spec.WFMg m 2 g) ∧
-    (Spec.tyOf r = .Full → r.mgs.length = 1 ∧ ∀ g ∈ r.mgs, Spec.WFMg m (k + 1) g) ∧
-    (Spec.tyOf r ∈ Spec.usesClsag → r.mgs = [] ∧ r.clsags.length = k) := by
+    (Spec.tyOf r = .Full → ∀ g ∈ r.mgs, Spec.WFMg m (k + 1) g) ∧
+    (Spec.tyOf r ∈ Spec.usesClsag → r.clsags.length = k ∧ ∀ c ∈ r.clsags, Spec.WFClsag m c) := by
   have full64 : ∀ (es : List (Spec.B × Spec.B)), (∀ e ∈ es, Spec.WFEcdhFull e) → ∀ x ∈ es.map Spec.specEcdhFull, x.length = 64 := by
     intro es he x hx
     obtain ⟨e, hm, rfl⟩ := List.mem_map.1 hx
@@ -202,13 +229,13 @@ theorem C03_spec_shapes_follow_tables (k n m : Nat) (r : Spec.RctD) (h : Spec.WF
     refine ⟨by simpa [Spec.RctD.ecdhEntries, Spec.tyOf, Spec.compactEcdh, Spec.WFEcdh8] using he, ?_, by simp [Spec.tyOf], by simp [Spec.tyOf, Spec.usesClsag]⟩
     intro _; exact ⟨hml, hm⟩
   | clsag fee ecdh outPk bps cls po =>
-    obtain ⟨_, _, he, _, _, _, hcl, _⟩ := h
+    obtain ⟨_, _, he, _, _, _, hcl, hcw, _⟩ := h
     refine ⟨by simpa [Spec.RctD.ecdhEntries, Spec.tyOf, Spec.compactEcdh, Spec.WFEcdh8] using he, by simp [Spec.tyOf, Spec.mlsagPerInput], by simp [Spec.tyOf], ?_⟩
-    intro _; exact ⟨rfl, hcl⟩
+    intro _; exact ⟨hcl, hcw⟩
   | bpplus fee ecdh outPk bpps cls po =>
-    obtain ⟨_, _, he, _, _, _, hcl, _⟩ := h
+    obtain ⟨_, _, he, _, _, _, hcl, hcw, _⟩ := h
     refine ⟨by simpa [Spec.RctD.ecdhEntries, Spec.tyOf, Spec.compactEcdh, Spec.WFEcdh8] using he, by simp [Spec.tyOf, Spec.mlsagPerInput], by simp [Spec.tyOf], ?_⟩
-    intro _; exact ⟨rfl, hcl⟩
+    intro _; exact ⟨hcl, hcw⟩
 
 /-! ## Non-vacuity: for each remaining signature family a description that is well-shaped, within the caps and `BppSmall`
 (hence its by-the-book bytes parse to the built structure), and a block -/
@@ -235,27 +262,28 @@ example : ∃ d : Spec.TxD, d.version = 1 ∧ Spec.keyRings d.ins = [1, 2] ∧ W
     exact ⟨by simp [d, Spec.u64], by simp [d, Spec.WFIn, Spec.u64, hk], by simp [d, Spec.WFOut, Spec.u64, hk], hs⟩
   · simp [CapD, CapBody, CapIn, capN, d, CAP, Gen.CAP, sizes, Gen.sizes]
   · intro fee e o bpps cls po h; simp [d] at h
-/- Full: two inputs, ring size 3 (one MLSAG of 3 rows × 3 columns), one output with its Borromean range signature -/
-example : ∃ d : Spec.TxD, d.ins.length = 2 ∧ Spec.ringSize d.ins = 3 ∧ Witness d := by
-  let d : Spec.TxD := ⟨0, [.key 0 [5, 1, 1] k, .key 0 [4, 1, 1] k], [⟨0, k, none⟩], [],
-    .v2 (some (.full 10 [(k, k)] [k] [rs] ⟨[[k, k, k], [k, k, k], [k, k, k]], k⟩))⟩
+/- Full: two inputs, ring size 4 (one MLSAG of 4 rows × 3 columns — not square, so the witness pins the orientation: it would NOT satisfy a
+transposed `WFMg (k + 1) m`), one output with its Borromean range signature -/
+example : ∃ d : Spec.TxD, d.ins.length = 2 ∧ Spec.ringSize d.ins = 4 ∧ Witness d := by
+  let d : Spec.TxD := ⟨0, [.key 0 [5, 1, 1, 2] k, .key 0 [4, 1, 1, 2] k], [⟨0, k, none⟩], [],
+    .v2 (some (.full 10 [(k, k)] [k] [rs] ⟨[[k, k, k], [k, k, k], [k, k, k], [k, k, k]], k⟩))⟩
   refine ⟨d, rfl, rfl, witness d ?_ ?_ ?_⟩
   · simp [Spec.WFTxD, d, Spec.WFIn, Spec.WFOut, Spec.WFBody, Spec.WFRct, Spec.WFMg, Spec.WFEcdhFull, Spec.all32, Spec.u64, Spec.ringSize, hk, hrs]
   · simp [CapD, CapBody, CapRct, CapIn, capN, d, CAP, Gen.CAP, sizes, Gen.sizes]
   · intro fee e o bpps cls po h; simp [d] at h
-/- Simple: two inputs, ring size 2 (two MLSAGs of 2 rows × 2 columns), pseudo outputs in the base -/
-example : ∃ d : Spec.TxD, d.ins.length = 2 ∧ Spec.ringSize d.ins = 2 ∧ Witness d := by
-  let mg : Spec.MgD := ⟨[[k, k], [k, k]], k⟩
-  let d : Spec.TxD := ⟨0, [.key 0 [5, 1] k, .key 0 [4, 1] k], [⟨0, k, none⟩], [],
+/- Simple: two inputs, ring size 3 (two MLSAGs of 3 rows × 2 columns — not square), pseudo outputs in the base -/
+example : ∃ d : Spec.TxD, d.ins.length = 2 ∧ Spec.ringSize d.ins = 3 ∧ Witness d := by
+  let mg : Spec.MgD := ⟨[[k, k], [k, k], [k, k]], k⟩
+  let d : Spec.TxD := ⟨0, [.key 0 [5, 1, 2] k, .key 0 [4, 1, 2] k], [⟨0, k, none⟩], [],
     .v2 (some (.simple 10 [k, k] [(k, k)] [k] [rs] [mg, mg]))⟩
   refine ⟨d, rfl, rfl, witness d ?_ ?_ ?_⟩
   · simp [Spec.WFTxD, d, mg, Spec.WFIn, Spec.WFOut, Spec.WFBody, Spec.WFRct, Spec.WFMg, Spec.WFEcdhFull, Spec.all32, Spec.u64, Spec.ringSize, hk, hrs]
   · simp [CapD, CapBody, CapRct, CapIn, capN, d, CAP, Gen.CAP, sizes, Gen.sizes]
   · intro fee e o bpps cls po h; simp [d] at h
-/- Bulletproof (u32 proof count): one input of ring size 2, one Bulletproof -/
-example : ∃ d : Spec.TxD, d.ins.length = 1 ∧ Spec.ringSize d.ins = 2 ∧ Witness d := by
-  let mg : Spec.MgD := ⟨[[k, k], [k, k]], k⟩
-  let d : Spec.TxD := ⟨0, [.key 0 [5, 1] k], [⟨0, k, some 3⟩], [],
+/- Bulletproof (u32 proof count): one input of ring size 3 (one MLSAG of 3 rows × 2 columns), one Bulletproof -/
+example : ∃ d : Spec.TxD, d.ins.length = 1 ∧ Spec.ringSize d.ins = 3 ∧ Witness d := by
+  let mg : Spec.MgD := ⟨[[k, k], [k, k], [k, k]], k⟩
+  let d : Spec.TxD := ⟨0, [.key 0 [5, 1, 2] k], [⟨0, k, some 3⟩], [],
     .v2 (some (.bulletproof 10 [(k, k)] [k] [bp] [mg] [k]))⟩
   refine ⟨d, rfl, rfl, witness d ?_ ?_ ?_⟩
   · simp [Spec.WFTxD, d, mg, bp, Spec.WFIn, Spec.WFOut, Spec.WFBody, Spec.WFRct, Spec.WFMg, Spec.WFBp, Spec.WFEcdhFull, Spec.all32, Spec.u64, Spec.ringSize, hk]
@@ -308,20 +336,22 @@ theorem C03_field_orders_are_monero :
 
 /-- … and the by-the-book byte strings ARE the named fields laid out in the order of the current source's macro invocations
 (for every description): Bulletproof `A S T1 T2 taux mu L R a b t`, Bulletproof+ `A A1 B r1 s1 d1 L R`, Borromean range signature
-`asig{s0 s1 ee} Ci`, v1 signature `c r`, prefix, block header, block. A reordering of a macro's field list (symmetric in encoder and
-decoder, hence invisible to C01/C02) changes `Gen.fieldOrder` and breaks this theorem -/
-theorem C03_spec_follows_field_orders (p : Spec.BpD) (q : Spec.BppD) (rs : Spec.RangeSigD) (s : Spec.B × Spec.B) (d : Spec.TxD)
-    (b : Spec.BlockD) :
+`asig{s0 s1 ee} Ci`, v1 signature `c r`, output `amount target`, prefix, block header, block. A reordering of a macro's field list
+(symmetric in encoder and decoder, hence invisible to C01/C02) changes `Gen.fieldOrder` — `Gen/Fields.lean` is regenerated with no
+fallback — and breaks this theorem. (The single-field rows `KeyImage`, `Key`, `CtKey` of `C03_field_orders_are_monero` carry no order.) -/
+theorem C03_spec_follows_field_orders (p : Spec.BpD) (q : Spec.BppD) (rs : Spec.RangeSigD) (s : Spec.B × Spec.B) (o : Spec.OutD)
+    (d : Spec.TxD) (b : Spec.BlockD) :
     Spec.specBp p = Spec.cat ((Gen.fieldOrder "Bulletproof").map (Spec.bpField p)) ∧
     Spec.specBpp q = Spec.cat ((Gen.fieldOrder "BulletproofPlus").map (Spec.bppField q)) ∧
     Spec.specRangeSig rs = Spec.cat ((Gen.fieldOrder "RangeSig").map (Spec.rangeSigField (Gen.fieldOrder "BoroSig") rs)) ∧
     Spec.specSig s = Spec.cat ((Gen.fieldOrder "Signature").map (Spec.sigField s)) ∧
     Spec.specPrefix d = Spec.cat ((Gen.fieldOrder "TransactionPrefix").map (Spec.prefixField d)) ∧
     Spec.specHeader b.hdr = Spec.cat ((Gen.fieldOrder "BlockHeader").map (Spec.headerField b.hdr)) ∧
-    Spec.specBlock b = Spec.cat ((Gen.fieldOrder "Block").map (Spec.blockField b)) := by
-  obtain ⟨h1, h2, h3, h4, h5, h6, h7, h8, _⟩ := C03_field_orders_are_monero
-  rw [h1, h2, h3, h4, h5, h6, h7, h8]
-  refine ⟨?_, ?_, ?_, ?_, ?_, ?_, ?_⟩
+    Spec.specBlock b = Spec.cat ((Gen.fieldOrder "Block").map (Spec.blockField b)) ∧
+    Spec.specOut o = Spec.cat ((Gen.fieldOrder "TxOut").map (Spec.outField o)) := by
+  obtain ⟨h1, h2, h3, h4, h5, h6, h7, h8, h9, _⟩ := C03_field_orders_are_monero
+  rw [h1, h2, h3, h4, h5, h6, h7, h8, h9]
+  refine ⟨?_, ?_, ?_, ?_, ?_, ?_, ?_, ?_⟩
   · simp [Spec.specBp, Spec.bpField, Spec.cat]
   · simp [Spec.specBpp, Spec.bppField, Spec.cat]
   · simp [Spec.specRangeSig, Spec.rangeSigField, Spec.boroSigField, Spec.cat]
@@ -329,22 +359,28 @@ theorem C03_spec_follows_field_orders (p : Spec.BpD) (q : Spec.BppD) (rs : Spec.
   · simp [Spec.specPrefix, Spec.prefixField, Spec.cat]
   · simp [Spec.specHeader, Spec.headerField, Spec.cat]
   · simp [Spec.specBlock, Spec.blockField, Spec.cat]
+  · simp [Spec.specOut, Spec.outField, Spec.cat]
 
-/-- the model's opaque fixed-size blocks of `build` are those named fields in that order (so the correspondence check, which
-compares the library's bytes for a struct filled BY FIELD NAME with `encTx (build d)`, checks the macro orders too) -/
-theorem C03_build_follows_field_orders (p : Spec.BpD) (q : Spec.BppD) (rs : Spec.RangeSigD) (s : Spec.B × Spec.B) :
+/-- the two multi-field records that the model keeps as opaque blobs are, in `build`, those named fields concatenated in the macro order
+(`buildBp` / `buildBpp` are verification-side functions that concatenate in spec order; the statement ties that order to the regenerated
+field lists). This does NOT say which bytes the Rust DECODER assigns to field `S` and which to `T1`: the model's `BP.fixed` is one
+192-byte block. The tie of the Rust field NAMES to wire positions is the correspondence run — the harness prints and fills every struct
+field BY NAME (desc.rs `tx_desc` / `parse_tx`, driver Drv/C03.lean `bpD` / `bppD`: positional tokens in the order `A S T1 …`) and the
+library's bytes for that struct are compared with `Spec.specTx`. (Range signatures and v1 signatures: `buildRangeSig` IS `specRangeSig`
+and `sigBytes` IS `specSig` by definition, so there is nothing to state beyond `C03_spec_follows_field_orders`.) -/
+theorem C03_build_follows_field_orders (p : Spec.BpD) (q : Spec.BppD) :
     encBP (buildBp p) = Spec.cat ((Gen.fieldOrder "Bulletproof").map (Spec.bpField p)) ∧
-    encBPP (buildBpp q) = Spec.cat ((Gen.fieldOrder "BulletproofPlus").map (Spec.bppField q)) ∧
-    buildRangeSig rs = Spec.cat ((Gen.fieldOrder "RangeSig").map (Spec.rangeSigField (Gen.fieldOrder "BoroSig") rs)) ∧
-    sigBytes s = Spec.cat ((Gen.fieldOrder "Signature").map (Spec.sigField s)) := by
-  have h := C03_spec_follows_field_orders p q rs s ⟨0, [], [], [], .v2 none⟩ ⟨⟨0, 0, 0, [], 0⟩, ⟨0, [], [], [], .v2 none⟩, []⟩
-  exact ⟨by rw [encBp_spec]; exact h.1, by rw [encBpp_spec]; exact h.2.1, h.2.2.1, h.2.2.2.1⟩
+    encBPP (buildBpp q) = Spec.cat ((Gen.fieldOrder "BulletproofPlus").map (Spec.bppField q)) := by
+  have h := C03_spec_follows_field_orders p q ⟨[], [], [], []⟩ ([], []) ⟨0, [], none⟩ ⟨0, [], [], [], .v2 none⟩
+    ⟨⟨0, 0, 0, [], 0⟩, ⟨0, [], [], [], .v2 none⟩, []⟩
+  exact ⟨by rw [encBp_spec]; exact h.1, by rw [encBpp_spec]; exact h.2.1⟩
 /-! ## The BulletproofPlus count: what is written, for every count -/
 
 /-- the recorded deviation, stated: for EVERY BulletproofPlus description the library writes the proof count as ONE raw byte
 (`len mod 256`) where the by-the-book layout has `varint len`; the rest of the prunable part is identical. With 128 or more proofs
-the two count encodings differ (one byte against at least two), so `encTx (build d) ≠ Spec.specTx d` there: `BppSmall` in
-`C03_enc_eq_spec` is necessary, not a proof convenience (known finding C03-bulletproofplus-count-byte-vs-varint) -/
+the two count encodings differ (one byte against at least two); that the whole transactions then differ, i.e. that `BppSmall` in
+`C03_enc_eq_spec` is necessary, is `C03_enc_ne_spec_of_bpp_large` / `C03_enc_eq_spec_iff` below (known finding
+C03-bulletproofplus-count-byte-vs-varint) -/
 theorem C03_bpp_count_is_one_byte (fee : Nat) (e o : List Spec.B) (bpps : List Spec.BppD) (cls : List Spec.ClsagD) (po : List Spec.B) :
     (∃ p, buildPrunable (.bpplus fee e o bpps cls po) = some p ∧
       encPrunable p 6 = [UInt8.ofNat (bpps.length % 256)] ++ Spec.cat (bpps.map Spec.specBpp) ++ Spec.cat (cls.map Spec.specClsag) ++ Spec.cat po) ∧
@@ -363,4 +399,52 @@ theorem C03_bpp_count_is_one_byte (fee : Nat) (e o : List Spec.B) (bpps : List S
     have : 0 < (Spec.leb128 (bpps.length / 128)).length := by
       rw [Spec.leb128]; split <;> simp
     omega
+
+/-- the deviation at the level of whole transactions: a BulletproofPlus description with 128 or more proofs is serialised by the model
+of the library to bytes that are NOT the by-the-book bytes -/
+theorem C03_enc_ne_spec_of_bpp_large (d : Spec.TxD) (fee : Nat) (e o : List Spec.B) (bpps : List Spec.BppD) (cls : List Spec.ClsagD)
+    (po : List Spec.B) (h : d.body = .v2 (some (.bpplus fee e o bpps cls po))) (hl : 128 ≤ bpps.length) :
+    encTx (build d) ≠ Spec.specTx d := by
+  intro heq
+  obtain ⟨⟨p, hp, hpe⟩, hsp, hne⟩ := C03_bpp_count_is_one_byte fee e o bpps cls po
+  have hpre := C03_prefix_eq_spec d
+  obtain ⟨unlock, ins, outs, extra, body⟩ := d
+  simp only at h; subst h
+  have hv : ¬ ((2 : Nat) = 1) := by decide
+  have e1 : encTx (build ⟨unlock, ins, outs, extra, .v2 (some (.bpplus fee e o bpps cls po))⟩) =
+      encPrefix (build ⟨unlock, ins, outs, extra, .v2 (some (.bpplus fee e o bpps cls po))⟩).pre ++
+        (encBase (buildBase (.bpplus fee e o bpps cls po)) ++ encPrunable p 6) := by
+    simp only [buildPrunable, Option.some.injEq] at hp; subst hp
+    simp [encTx, build, buildPrefix, Spec.TxD.version, buildBase, buildPrunable]
+  have e2 : Spec.specTx ⟨unlock, ins, outs, extra, .v2 (some (.bpplus fee e o bpps cls po))⟩ =
+      Spec.specPrefix ⟨unlock, ins, outs, extra, .v2 (some (.bpplus fee e o bpps cls po))⟩ ++
+        (Spec.specBase (.bpplus fee e o bpps cls po) ++ Spec.specPrunable (.bpplus fee e o bpps cls po)) := by
+    simp [Spec.specTx, Spec.specBody]
+  rw [e1, e2, hpre, encBase_spec] at heq
+  have h3 := List.append_cancel_left (List.append_cancel_left heq)
+  rw [hpe, hsp] at h3
+  simp only [List.append_assoc] at h3
+  have h4 : [UInt8.ofNat (bpps.length % 256)] = Spec.varint bpps.length := by
+    have := congrArg List.length h3
+    simp only [List.length_append, List.length_cons, List.length_nil] at this
+    have hlen : (Spec.varint bpps.length).length = 1 := by omega
+    have := List.append_inj h3 (by simp [hlen])
+    exact this.1
+  exact hne hl h4.symm
+
+/-- … so the hypothesis of `C03_enc_eq_spec` is exactly what is needed: the model encoder applied to the described value gives the
+by-the-book bytes IF AND ONLY IF the description has fewer than 128 BulletproofPlus proofs -/
+theorem C03_enc_eq_spec_iff (d : Spec.TxD) : encTx (build d) = Spec.specTx d ↔ BppSmall d := by
+  constructor
+  · intro heq fee e o bpps cls po h
+    apply Classical.byContradiction
+    intro hlt
+    exact C03_enc_ne_spec_of_bpp_large d fee e o bpps cls po h (by omega) heq
+  · exact C03_enc_eq_spec d
+
+/- non-vacuity of `C03_enc_ne_spec_of_bpp_large`: a description with 128 (empty) BulletproofPlus proofs -/
+example : ∃ d : Spec.TxD, ¬ BppSmall d ∧ encTx (build d) ≠ Spec.specTx d := by
+  let d : Spec.TxD := ⟨0, [.gen 1], [], [], .v2 (some (.bpplus 0 [] [] (List.replicate 128 ⟨[], [], [], [], [], [], [], []⟩) [] []))⟩
+  have hne := C03_enc_ne_spec_of_bpp_large d 0 [] [] (List.replicate 128 ⟨[], [], [], [], [], [], [], []⟩) [] [] rfl (by simp)
+  exact ⟨d, fun hb => hne (C03_enc_eq_spec d hb), hne⟩
 end C03
